@@ -394,6 +394,25 @@ def gen_cases(ctx, thorough):
                     fixed.append(([1] * n, one_rot()) if i < 2 else (s_, b_))
                 data = fixed
                 plan.append({"kind": kind, "n": n, "h": h, "a": a, "am": am, "ph": ph, "data": data, "regime": "small-amplitude"})
+        # near-|+>^n regime: couplings, visible biases and phases ~1e-3 with O(1) hidden biases; a rotated outcome "1" is then a strongly
+        # cancelling sum of amplitudes, which amplifies any loss of precision in an intermediate (e.g. a single-precision detour)
+        if kind != "pos":
+            for _ in range(4 if thorough else 1):
+                n = rng.choice([2, 3]); h = rng.choice([1, 2, 3]); a = rng.choice([1, 2])
+                if kind == "dm":
+                    am = qc.rand_prbm_params(rng, n, h, a, 1e-3); ph = qc.rand_prbm_params(rng, n, h, a, 1e-3, d_zero=True)
+                    am["d"] = [rng.gauss(0.0, 1.0) for _ in range(a)]
+                else:
+                    am = qc.rand_rbm_params(rng, n, h, 1e-3); ph = qc.rand_rbm_params(rng, n, h, 1e-3)
+                am["c"] = [rng.gauss(0.0, 1.0) for _ in range(h)]
+                ph["c"] = [rng.gauss(0.0, 1.0) for _ in range(h)]
+                data = []
+                for i in range(4):
+                    jj = rng.randrange(n)
+                    bs = "".join(rng.choice("XY") if j == jj else "Z" for j in range(n))
+                    sv = [1 if j == jj else rng.randint(0, 1) for j in range(n)]
+                    data.append((sv, bs))
+                plan.append({"kind": kind, "n": n, "h": h, "a": a, "am": am, "ph": ph, "data": data, "regime": "near-plus"})
         # one batch with more than 256 distinct bases (group labels beyond one byte)
         if kind == "cplx":
             n = 6
